@@ -40,6 +40,14 @@ import BGV
 #print axioms BGV.C04_dir_total
 #print axioms BGV.C04_dir_outDegree
 
+-- C05
+#print axioms BGV.C05_dir_inv_reachable
+#print axioms BGV.C05_dir_refines
+#print axioms BGV.C05_dir_getEdgeWeight
+#print axioms BGV.C05_dir_readd_noop
+#print axioms BGV.C05_dir_total
+#print axioms BGV.C05_dir_graph_part
+
 -- C06
 #print axioms BGV.C06_eq_iff_same_graph
 #print axioms BGV.C06_refl
